@@ -342,6 +342,270 @@ Proof.
 Qed.
 
 (* ------------------------------------------------------------------------------------ *)
+(* 4b. positional form: substitution commutes with the split at a byte that no placeholder
+   contains; hence with the first-'?' split of url.Parse *)
+
+Lemma drop_app0 a b : drop (String.length a) (a ++ b) = b.
+Proof. induction a as [|c r IH]; simpl; [destruct b; reflexivity|exact IH]. Qed.
+
+Lemma rf_empty f key v : replace_fuel f EmptyString key v = EmptyString.
+Proof. destruct f; reflexivity. Qed.
+
+Lemma drop_length n s : (String.length (drop n s) <= String.length s)%nat.
+Proof.
+  revert s. induction n as [|n IH]; intros s; simpl; [lia|].
+  destruct s as [|c r]; simpl; [lia|]. specialize (IH r). lia.
+Qed.
+
+(* enough fuel is enough: the result does not depend on it (non-empty key) *)
+Lemma rf_fuel key v : key <> EmptyString -> forall f f' s,
+  (String.length s <= f)%nat -> (String.length s <= f')%nat ->
+  replace_fuel f s key v = replace_fuel f' s key v.
+Proof.
+  intros Hk. induction f as [|f IH]; intros f' s H H'.
+  - destruct s; simpl in H; [|lia]. rewrite !rf_empty. reflexivity.
+  - destruct s as [|x r]; [rewrite !rf_empty; reflexivity|].
+    destruct f' as [|f']; [simpl in H'; lia|]. simpl in H, H'. simpl.
+    destruct (is_prefix key (String x r)) eqn:P.
+    + f_equal. destruct key as [|k0 key']; [congruence|]. simpl.
+      pose proof (drop_length (String.length key') r). apply IH; lia.
+    + f_equal. apply IH; lia.
+Qed.
+
+Lemma ascii_eqb_code a b : code a =? code b = false -> Ascii.eqb a b = false.
+Proof.
+  intros H. destruct (Ascii.eqb a b) eqn:E; [|reflexivity].
+  apply Ascii.eqb_eq in E. subst. rewrite N.eqb_refl in H. discriminate.
+Qed.
+
+(* a key without byte c cannot match across an occurrence of c *)
+Lemma is_prefix_sep key c : has_byte (code c) key = false -> forall a b,
+  is_prefix key (a ++ String c b) = is_prefix key a.
+Proof.
+  induction key as [|k0 key IH]; intros H a b; [destruct a; reflexivity|].
+  simpl in H. apply orb_false_iff in H. destruct H as [H0 H1].
+  destruct a as [|x a']; simpl.
+  - rewrite (ascii_eqb_code _ _ H0). reflexivity.
+  - rewrite (IH H1). reflexivity.
+Qed.
+
+Lemma rf_split key v c : key <> EmptyString -> has_byte (code c) key = false ->
+  forall f a b fa fb,
+  (String.length (a ++ String c b) <= f)%nat -> (String.length a <= fa)%nat ->
+  (String.length b <= fb)%nat ->
+  replace_fuel f (a ++ String c b) key v =
+  (replace_fuel fa a key v ++ String c (replace_fuel fb b key v))%string.
+Proof.
+  intros Hk Hc. induction f as [|f IH]; intros a b fa fb H Ha Hb.
+  - destruct a; simpl in H; lia.
+  - destruct a as [|x a'].
+    + rewrite rf_empty. simpl. simpl in H.
+      assert (P : is_prefix key (String c b) = false).
+      { pose proof (is_prefix_sep key c Hc EmptyString b) as Q. simpl in Q. rewrite Q.
+        destruct key; [congruence|reflexivity]. }
+      rewrite P. f_equal. apply rf_fuel; [exact Hk|lia|exact Hb].
+    + destruct fa as [|fa]; [simpl in Ha; lia|].
+      simpl in H, Ha.
+      change ((String x a' ++ String c b)%string) with (String x (a' ++ String c b)).
+      simpl replace_fuel.
+      pose proof (is_prefix_sep key c Hc (String x a') b) as Q.
+      change ((String x a' ++ String c b)%string) with (String x (a' ++ String c b)) in Q.
+      rewrite Q. destruct (is_prefix key (String x a')) eqn:P.
+      * pose proof (is_prefix_split _ _ P) as E.
+        set (a'' := drop (String.length key) (String x a')) in *.
+        assert (D : drop (String.length key) (String x (a' ++ String c b)) = (a'' ++ String c b)%string).
+        { change (String x (a' ++ String c b)) with ((String x a' ++ String c b)%string).
+          rewrite E at 1. rewrite sapp_assoc. apply drop_app0. }
+        rewrite D.
+        assert (L : (String.length a'' < String.length (String x a'))%nat).
+        { rewrite E. rewrite sapp_length. destruct key; [congruence|simpl; lia]. }
+        simpl in L. rewrite sapp_length in H. simpl in H.
+        rewrite (IH a'' b fa fb); [rewrite sapp_assoc; reflexivity| | |exact Hb].
+        -- rewrite sapp_length. simpl. lia.
+        -- lia.
+      * simpl. f_equal. apply IH; [lia|lia|exact Hb].
+Qed.
+
+Lemma replace_all_split key v c a b : key <> EmptyString -> has_byte (code c) key = false ->
+  replace_all (a ++ String c b) key v = (replace_all a key v ++ String c (replace_all b key v))%string.
+Proof. intros Hk Hc. unfold replace_all. apply rf_split; auto. Qed.
+
+Lemma placeholder_nonempty k : placeholder k <> EmptyString.
+Proof. unfold placeholder. simpl. discriminate. Qed.
+
+(* substitution of all parameters commutes with the split at any byte c that no parameter NAME
+   contains (and that is none of '{' '.' '}'); no condition on the VALUES *)
+Lemma generate_split c : forall params,
+  (forall k v, In (k, v) params -> has_byte (code c) (placeholder k) = false) ->
+  forall a b,
+  generate_path (a ++ String c b) params =
+  (generate_path a params ++ String c (generate_path b params))%string.
+Proof.
+  unfold generate_path. induction params as [|[k v] r IH]; intros H a0 b0; simpl; [reflexivity|].
+  rewrite replace_all_split; [|apply placeholder_nonempty|apply (H k v); left; reflexivity].
+  apply IH. intros k' v' Hin. apply (H k' v'). right. exact Hin.
+Qed.
+
+Lemma cut_rebuild n : forall s a b,
+  cut n s = (a, b, true) -> exists c, code c = n /\ s = (a ++ String c b)%string /\ has_byte n a = false.
+Proof.
+  induction s as [|x r IH]; intros a b H; simpl in H; [discriminate|].
+  destruct (code x =? n) eqn:E.
+  - injection H as H1 H2. subst a b. exists x. apply N.eqb_eq in E. auto.
+  - destruct (cut n r) as [[a' b'] f'] eqn:C. injection H as H1 H2 H3. subst a b' f'.
+    destruct (IH a' b eq_refl) as [c [Hc [Hs Ha]]]. exists c. split; [exact Hc|]. split.
+    + simpl. rewrite Hs. reflexivity.
+    + simpl. rewrite E, Ha. reflexivity.
+Qed.
+
+Lemma cut_false n : forall s a b, cut n s = (a, b, false) -> s = a /\ b = EmptyString /\ has_byte n s = false.
+Proof.
+  induction s as [|x r IH]; intros a b H; simpl in H.
+  - injection H as H1 H2. subst. auto.
+  - destruct (code x =? n) eqn:E; [discriminate|].
+    destruct (cut n r) as [[a' b'] f'] eqn:C. injection H as H1 H2 H3. subst a b' f'.
+    destruct (IH a' b eq_refl) as [H1 [H2 H3]]. subst. simpl. rewrite E. auto.
+Qed.
+
+Lemma generate_empty params : generate_path EmptyString params = EmptyString.
+Proof. unfold generate_path. induction params as [|[k v] r IH]; simpl; [reflexivity|exact IH]. Qed.
+
+(* THE POSITIONAL FORM: for parameters free of '?', the first-'?' split of the generated path is
+   the substituted path part and the substituted query part of url_pattern: a parameter written
+   in the path part stays in the path part, one written in the static query stays there *)
+Lemma generate_positional pattern pp sq f params :
+  cut c_qm pattern = (pp, sq, f) ->
+  (forall k v, In (k, v) params -> has_byte c_qm k = false /\ has_byte c_qm v = false) ->
+  cut c_qm (generate_path pattern params) = (generate_path pp params, generate_path sq params, f).
+Proof.
+  intros C H.
+  assert (Hq : special c_qm) by (unfold special; auto).
+  assert (Hpp : forall s, has_byte c_qm s = false -> has_byte c_qm (generate_path s params) = false).
+  { intros s Hs. apply count_has. rewrite (generate_counts c_qm Hq params s H). apply has_count. exact Hs. }
+  destruct f.
+  - destruct (cut_rebuild _ _ _ _ C) as [c [Hc [Hs Ha]]]. subst pattern.
+    rewrite generate_split.
+    + apply cut_found; [exact Hc|apply Hpp; exact Ha].
+    + intros k v Hin. rewrite Hc. apply placeholder_clean; [exact Hq|apply (H k v Hin)].
+  - destruct (cut_false _ _ _ _ C) as [H1 [H2 H3]]. subst pp sq.
+    rewrite generate_empty. apply cut_absent. apply Hpp. exact H3.
+Qed.
+
+(* a pattern part in which no placeholder occurs is left as written *)
+Fixpoint occurs (key s : string) : bool :=
+  is_prefix key s || match s with EmptyString => false | String _ r => occurs key r end.
+
+Lemma rf_absent key v : forall f s, occurs key s = false -> replace_fuel f s key v = s.
+Proof.
+  induction f as [|f IH]; intros s H; [reflexivity|].
+  destruct s as [|x r]; [reflexivity|].
+  simpl in H. apply orb_false_iff in H. destruct H as [H1 H2].
+  simpl replace_fuel. rewrite H1. f_equal. apply IH. exact H2.
+Qed.
+
+Lemma generate_absent s : forall params,
+  (forall k v, In (k, v) params -> occurs (placeholder k) s = false) ->
+  generate_path s params = s.
+Proof.
+  unfold generate_path. induction params as [|[k v] r IH]; intros H; simpl; [reflexivity|].
+  unfold replace_all. rewrite rf_absent by (apply (H k v); left; reflexivity).
+  apply IH. intros k' v' Hin. apply (H k' v'). right. exact Hin.
+Qed.
+
+(* control bytes and the leading '/' survive substitution *)
+Lemma has_ctl_app a b : has_ctl (a ++ b) = has_ctl a || has_ctl b.
+Proof.
+  induction a as [|c r IH]; simpl; [reflexivity|]. rewrite IH. rewrite !orb_assoc. reflexivity.
+Qed.
+
+Lemma has_ctl_drop n : forall s, has_ctl s = false -> has_ctl (drop n s) = false.
+Proof.
+  induction n as [|n IH]; intros s H; simpl; [exact H|].
+  destruct s as [|c r]; [reflexivity|]. simpl in H.
+  apply orb_false_iff in H. destruct H as [_ H]. apply IH. exact H.
+Qed.
+
+Lemma rf_ctl key v : has_ctl v = false -> forall f s,
+  has_ctl s = false -> has_ctl (replace_fuel f s key v) = false.
+Proof.
+  intros Hv. induction f as [|f IH]; intros s H; [exact H|].
+  destruct s as [|x r]; [reflexivity|]. simpl replace_fuel.
+  destruct (is_prefix key (String x r)).
+  - rewrite has_ctl_app, Hv. simpl. apply IH. apply has_ctl_drop. exact H.
+  - simpl in *. apply orb_false_iff in H. destruct H as [H1 H2]. rewrite H1. simpl. apply IH. exact H2.
+Qed.
+
+Lemma generate_ctl : forall params s,
+  (forall k v, In (k, v) params -> has_ctl v = false) -> has_ctl s = false ->
+  has_ctl (generate_path s params) = false.
+Proof.
+  unfold generate_path. induction params as [|[k v] r IH]; intros s H Hs; simpl; [exact Hs|].
+  apply IH; [intros k' v' Hin; apply (H k' v'); right; exact Hin|].
+  unfold replace_all. apply rf_ctl; [apply (H k v); left; reflexivity|exact Hs].
+Qed.
+
+Lemma replace_all_slash s k v : starts_with_slash s = true ->
+  starts_with_slash (replace_all s (placeholder k) v) = true.
+Proof.
+  destruct s as [|x r]; [discriminate|]. intros H.
+  assert (P : is_prefix (placeholder k) (String x r) = false).
+  { destruct (Ascii.eqb "{" x) eqn:E.
+    - apply Ascii.eqb_eq in E. subst x. simpl in H. discriminate.
+    - unfold placeholder. cbn [append is_prefix]. rewrite E. reflexivity. }
+  unfold replace_all. cbn [String.length replace_fuel]. rewrite P. exact H.
+Qed.
+
+Lemma generate_slash : forall params s, starts_with_slash s = true ->
+  starts_with_slash (generate_path s params) = true.
+Proof.
+  unfold generate_path. induction params as [|[k v] r IH]; intros s H; simpl; [exact H|].
+  apply IH. apply replace_all_slash. exact H.
+Qed.
+
+Definition clean_params (params : list (string * string)) : Prop :=
+  forall k v, In (k, v) params -> forall c, special c -> has_byte c k = false /\ has_byte c v = false.
+
+Lemma same_counts_generate s params : clean_params params ->
+  same_counts s (generate_path s params) = true.
+Proof.
+  intros H. unfold same_counts.
+  rewrite !generate_counts; [rewrite !Nat.eqb_refl; reflexivity| | | | | |];
+    try (unfold special; auto; fail);
+    intros k v Hin; apply (H k v Hin); unfold special; auto.
+Qed.
+
+Lemma same_counts_pos_generate pattern params : clean_params params ->
+  same_counts_pos pattern (generate_path pattern params) = true.
+Proof.
+  intros H. unfold same_counts_pos.
+  destruct (cut c_qm pattern) as [[pp sq] f] eqn:C.
+  rewrite (generate_positional pattern pp sq f params C).
+  - rewrite Bool.eqb_reflx, !same_counts_generate by exact H. reflexivity.
+  - intros k v Hin. apply (H k v Hin). unfold special. auto.
+Qed.
+
+(* the count form follows from the positional form *)
+Lemma same_counts_pos_counts pattern path :
+  same_counts_pos pattern path = true -> same_counts pattern path = true.
+Proof.
+  unfold same_counts_pos.
+  destruct (cut c_qm pattern) as [[pp sq] f] eqn:C. destruct (cut c_qm path) as [[gp gs] gf] eqn:G.
+  intros H. apply andb_true_iff in H. destruct H as [H H2]. apply andb_true_iff in H. destruct H as [H0 H1].
+  apply Bool.eqb_prop in H0. subst gf.
+  unfold same_counts in *.
+  apply andb_true_iff in H1. destruct H1 as [H1 H1c]. apply andb_true_iff in H1. destruct H1 as [H1a H1b].
+  apply andb_true_iff in H2. destruct H2 as [H2 H2c]. apply andb_true_iff in H2. destruct H2 as [H2a H2b].
+  apply Nat.eqb_eq in H1a, H1b, H1c, H2a, H2b, H2c.
+  destruct f.
+  - destruct (cut_rebuild _ _ _ _ C) as [c [Hc [Hs _]]].
+    destruct (cut_rebuild _ _ _ _ G) as [c' [Hc' [Hs' _]]]. subst pattern path.
+    rewrite !count_byte_app. simpl. rewrite Hc, Hc'. simpl.
+    rewrite H1a, H1b, H1c, H2a, H2b, H2c, !Nat.eqb_refl. reflexivity.
+  - destruct (cut_false _ _ _ _ C) as [E1 [E2 _]]. destruct (cut_false _ _ _ _ G) as [E3 [E4 _]].
+    subst. rewrite H1a, H1b, H1c, !Nat.eqb_refl. reflexivity.
+Qed.
+
+(* ------------------------------------------------------------------------------------ *)
 (* 5. URL assembly: the model meets the oracle, the oracle is sound *)
 
 Lemma list_eqb_str_refl l : list_eqb str_eqb l l = true.
@@ -663,6 +927,20 @@ Proof.
     apply existsb_exists in Hex. congruence.
 Qed.
 
+Lemma gin_clean_params route dp ps :
+  clean_names route -> route_match route dp = Some ps ->
+  existsb (fun kv : string * string => tainted (snd kv)) ps = false ->
+  clean_params (map (fun kv => (cap_first (fst kv), snd kv)) ps).
+Proof.
+  intros Hn M T k v Hin c Hc. apply in_map_iff in Hin. destruct Hin as [[n x] [E Hin]].
+  simpl in E. inversion E; subst k v. split.
+  - apply tainted_parts; [|exact Hc]. apply Hn. eapply route_match_names; eassumption.
+  - apply tainted_parts; [|exact Hc].
+    destruct (tainted x) eqn:Tx; [|reflexivity].
+    exfalso. assert (exists kv, In kv ps /\ tainted (snd kv) = true) as Hex by (exists (n, x); auto).
+    apply existsb_exists in Hex. congruence.
+Qed.
+
 Lemma gin_meets_oracle route allow be_allow pattern hosts h target :
   In h hosts -> clean_names route -> has_byte c_hash pattern = false ->
   gin_spec_b (extracted_of route target) pattern hosts
@@ -681,8 +959,8 @@ Proof.
     destruct (assemble h path q) as [c|] eqn:A; simpl; [|reflexivity].
     assert (C : forall c0, special c0 -> count_byte c0 path = count_byte c0 pattern).
     { intros c0 Hc. apply (gin_generate_counts route dp ps pattern c0); assumption. }
-    unfold same_counts.
-    rewrite (C c_pct), (C c_qm), (C c_hash), !Nat.eqb_refl by (unfold special; auto).
+    unfold path at 1. rewrite (same_counts_pos_generate pattern params)
+      by (apply (gin_clean_params route dp ps); assumption).
     simpl.
     pose proof (assemble_meets_oracle hosts h path q Hh (forwarded_nodup _ _ _)) as O.
     unfold asm_spec_b in O. rewrite A in O.
@@ -759,4 +1037,82 @@ Proof.
       destruct (tainted x) eqn:Tx; [|reflexivity].
       exfalso. assert (exists kv, In kv ps /\ tainted (snd kv) = true) as Hex by (exists (n, x); auto).
       apply existsb_exists in Hex. congruence.
+Qed.
+
+(* ------------------------------------------------------------------------------------ *)
+(* 7. positional form, end to end *)
+
+(* url_pattern with parameters free of '%' '?' '#' and control bytes: the backend is called;
+   its path is the substituted PATH PART of url_pattern, its query the substituted QUERY PART
+   of url_pattern followed by the forwarded parameters; no fragment *)
+Lemma positional_url h pattern pp sq f params q :
+  wf_host h = true -> starts_with_slash pattern = true -> has_ctl pattern = false ->
+  has_byte c_hash pattern = false -> cut c_qm pattern = (pp, sq, f) -> has_byte c_pct pp = false ->
+  clean_params params -> (forall k v, In (k, v) params -> has_ctl v = false) ->
+  exists c, assemble h (generate_path pattern params) q = Some c /\
+    o_host c = h /\ o_path c = generate_path pp params /\ o_frag c = EmptyString /\
+    o_rawquery c = match q with
+                   | [] => generate_path sq params
+                   | _ => if str_eqb (generate_path sq params) "" then values_encode q
+                          else (generate_path sq params ++ String (chr c_amp) (values_encode q))%string
+                   end.
+Proof.
+  intros Hw Hs Hc Hh C Hp Hcl Hctl.
+  assert (K : forall b s, special b -> has_byte b s = false -> has_byte b (generate_path s params) = false).
+  { intros b s Hb H0. apply count_has. rewrite (generate_counts b Hb params s).
+    - apply has_count. exact H0.
+    - intros k v Hin. apply (Hcl k v Hin b Hb). }
+  apply (assemble_explicit h _ (generate_path pp params) (generate_path sq params) f q).
+  - exact Hw.
+  - apply generate_slash. exact Hs.
+  - apply generate_ctl; assumption.
+  - apply K; [unfold special; auto|exact Hh].
+  - apply generate_positional; [exact C|].
+    intros k v Hin. apply (Hcl k v Hin). unfold special. auto.
+  - apply K; [unfold special; auto|exact Hp].
+Qed.
+
+(* a static query in which no placeholder is written reaches the backend exactly as written *)
+Lemma static_query_unchanged pattern pp sq f params :
+  cut c_qm pattern = (pp, sq, f) ->
+  (forall k v, In (k, v) params -> has_byte c_qm k = false /\ has_byte c_qm v = false) ->
+  (forall k v, In (k, v) params -> occurs (placeholder k) sq = false) ->
+  cut c_qm (generate_path pattern params) = (generate_path pp params, sq, f).
+Proof.
+  intros C H Ho. rewrite (generate_positional pattern pp sq f params C H).
+  rewrite (generate_absent sq params Ho). reflexivity.
+Qed.
+
+(* the gin engine: whenever the proxy is reached, the generated path splits where url_pattern does *)
+Lemma gin_positional route allow be_allow pattern h target params path qep q c pp sq f :
+  clean_names route -> cut c_qm pattern = (pp, sq, f) ->
+  gin_request route allow be_allow pattern h target = GProxy params path qep q c ->
+  cut c_qm path = (generate_path pp params, generate_path sq params, f).
+Proof.
+  intros Hn C. unfold gin_request.
+  destruct (wire_parse target) as [[dp rawq]|]; [|discriminate].
+  destruct (route_match route dp) as [ps|] eqn:M; [|discriminate].
+  destruct (existsb (fun kv => tainted (snd kv)) ps) eqn:T.
+  - rewrite (tainted_some_rejected _ T). discriminate.
+  - rewrite (untainted_all_ok _ T). intros G. injection G as E1 E2 E3 E4 E5. subst params path.
+    apply generate_positional; [exact C|].
+    intros k v Hin. apply (gin_clean_params route dp ps Hn M T k v Hin). unfold special. auto.
+Qed.
+
+(* what the gin checker does NOT exclude: '&' and '=' pass it, so a placeholder written INSIDE the
+   static query of url_pattern lets an accepted path parameter add a query pair: the backend URL
+   carries admin=true although neither url_pattern nor the client's (empty) query has that key *)
+Lemma static_query_placeholder_refuted :
+  exists target params path c,
+    gin_request [Lit "a"; Par "p"] ["*"] [] "/b?id={{.P}}&s=1" "http://h" target
+      = GProxy params path [] [] (Some c) /\
+    forallb (fun kv => param_ok (snd kv)) params = true /\
+    pvals "admin" (fst (parse_query "id={{.P}}&s=1")) = [] /\
+    pvals "admin" (fst (parse_query (o_rawquery c))) = ["true"] /\
+    same_counts_pos "/b?id={{.P}}&s=1" path = true.
+Proof.
+  exists "/a/x&admin=true", [("P", "x&admin=true")], "/b?id=x&admin=true&s=1",
+    {| o_host := "http://h"; o_path := "/b"; o_rawquery := "id=x&admin=true&s=1";
+       o_frag := ""; o_wire := "/b?id=x&admin=true&s=1" |}.
+  vm_compute. repeat split; reflexivity.
 Qed.
